@@ -707,6 +707,18 @@ pub fn gen_c07(seed: u64, thorough: bool) -> Case {
         }
         let k = if rng.chance(1, 3) { rng.below(4) } else { rng.log_uniform(1, 2_000) };
         case.push(GK::AfterPolls(k));
+        if rng.chance(1, 3) {
+            // commands the engine refuses or merely answers while it searches; the stop that follows must still arrive
+            for _ in 0..rng.range(1, 3) {
+                match rng.below(5) {
+                    0 => case.raw("go depth 1"),
+                    1 => case.raw("go infinite"),
+                    2 => case.push(GK::PosCur),
+                    3 => case.raw("isready"),
+                    _ => case.raw("show"),
+                }
+            }
+        }
         case.raw(if rng.chance(1, 4) { "ucinewgame" } else { "stop" });
         case.push(GK::AwaitBest);
         case.raw("isready");
@@ -742,6 +754,16 @@ pub fn gen_c07(seed: u64, thorough: bool) -> Case {
             case.push(GK::NewGame { root: root_cmd_str(&root), pre });
             case.push(GK::PosCur);
             case.raw(if rng.chance(1, 2) { "go infinite".to_string() } else { format!("go depth {}", depth + 1) });
+            if rng.chance(1, 3) {
+                for _ in 0..rng.range(1, 2) {
+                    match rng.below(4) {
+                        0 => case.raw("go depth 1"),
+                        1 => case.push(GK::PosCur),
+                        2 => case.raw("isready"),
+                        _ => case.raw("go movetime 50"),
+                    }
+                }
+            }
             case.raw(if rng.chance(1, 3) { "ucinewgame" } else { "stop" });
             case.push(GK::AwaitBest);
             case.raw("isready");
@@ -1218,6 +1240,61 @@ pub fn gen_c13_extreme(seed: u64) -> Case {
 }
 
 // ------------------------------------------------------------------------------------------ C19
+/// non-king material in centipawns (P 100, N/B 300, R 500, Q 900), both sides
+fn material(p: &Pos) -> u32 {
+    p.placement()
+        .bytes()
+        .map(|c| match c.to_ascii_lowercase() {
+            b'p' => 100,
+            b'n' | b'b' => 300,
+            b'r' => 500,
+            b'q' => 900,
+            _ => 0,
+        })
+        .sum()
+}
+
+/// A (root, moves) pair whose last move is a capture that takes the material from above 3150 to below 2850 - the
+/// engine switches its evaluation to the endgame below 3000, piece-square terms included. Seeded walks that prefer
+/// captures, from corpus roots with 3150..4600 of material.
+pub fn phase_crossing_line(rng: &mut Rng) -> Option<(String, Vec<String>)> {
+    let mids: Vec<&Root> = ROOTS.iter().filter(|r| r.class != 3).filter(|r| crate::gui::root_pos(&root_cmd(r)).map_or(false, |p| (3150..=4600).contains(&material(&p)))).collect();
+    if mids.is_empty() {
+        return None;
+    }
+    for _ in 0..60 {
+        let r = *rng.pick(&mids);
+        let root = root_cmd(r);
+        let mut p = crate::gui::root_pos(&root)?;
+        let mut line: Vec<String> = vec![];
+        for _ in 0..40 {
+            let l = p.legal_moves();
+            if l.is_empty() {
+                break;
+            }
+            let before = material(&p);
+            let caps: Vec<&String> = l
+                .iter()
+                .filter(|m| {
+                    let mut q = p.clone();
+                    q.play(m) && material(&q) < before
+                })
+                .collect();
+            let m = if !caps.is_empty() && rng.chance(2, 3) { (*rng.pick(&caps)).clone() } else { rng.pick(&l).clone() };
+            p.play(&m);
+            line.push(m);
+            let after = material(&p);
+            if before >= 3150 && after <= 2850 && !p.legal_moves().is_empty() {
+                return Some((root, line));
+            }
+            if after < 3150 {
+                break;
+            }
+        }
+    }
+    None
+}
+
 /// tags carry the item: c19root=<root cmd> c19pre=<moves> c19depth=<n>
 pub fn gen_c19(seed: u64, _thorough: bool) -> Case {
     // 8 consecutive seeds share one item (same root/pre/depth) and differ in the perturbation
@@ -1227,8 +1304,18 @@ pub fn gen_c19(seed: u64, _thorough: bool) -> Case {
     let r = irng.pick(ROOTS);
     let root = root_cmd(r);
     let pre_n = if irng.chance(1, 2) { 0 } else { irng.below(10) };
-    let pre = walk(&mut irng, &root, pre_n);
-    let class = if pre.len() > 4 { r.class.max(1) } else { r.class };
+    let mut pre = walk(&mut irng, &root, pre_n);
+    let mut root = root;
+    let mut class = if pre.len() > 4 { r.class.max(1) } else { r.class };
+    if item % 5 == 2 {
+        // the item's move list ends in the capture that takes the material below the engine's endgame threshold: state
+        // that is derived from the game record move by move (phase, piece-square tables) is at its most fragile there
+        if let Some((rt, line)) = phase_crossing_line(&mut irng) {
+            root = rt;
+            pre = line;
+            class = 1;
+        }
+    }
     let depth = if irng.chance(1, 4) && class != 3 { irng.range(4, 5) } else { irng.range(1, max_depth_for(class).min(4)) };
     let mut rng = Rng::new(seed, 0x1919);
     let mut case = Case::new("C19", "", seed, Mode::Session);
@@ -1366,6 +1453,15 @@ pub fn gen_c19(seed: u64, _thorough: bool) -> Case {
     }
     case.push(GK::NewGame { root: root.clone(), pre: pre.clone() });
     case.push(GK::PosCur);
+    if pert >= 2 && rng.chance(1, 4) {
+        // commands between `position` and `go` that only look at the engine: the position asked about is still the same
+        for _ in 0..rng.range(1, 2) {
+            case.raw(*rng.pick(&["show", "isready", "d", "stop", "wait"]));
+        }
+        if rng.chance(1, 2) {
+            case.push(GK::PosCur);
+        }
+    }
     case.raw(format!("go depth {}", depth));
     case.tags.push(format!("c19go={}", case.steps.len()));
     if pert == 3 {
